@@ -371,10 +371,16 @@ def generate(rng, tier, index):
     ops.append(["new", 0, kw()])
     objs = [0]
     next_obj = 1
+    canvary = {}      # generator-side guess of each object's variable_list (only biases the workload)
+    written = []      # paths some save / foreign write has targeted so far
     for _ in range(n_ops - 1):
         k = rng.weighted([(kk, w) for kk, w in sorted(weights.items())])
         o = rng.choice(objs)
         path = SIM_PREFIX + "p%d.par" % rng.below(n_path)
+        if k in ("load", "read_par_file") and written and rng.chance(0.85):
+            path = rng.choice(written)
+        if k == "save" and path not in written:
+            written.append(path)
         if k == "new":
             if len(objs) >= n_obj:
                 continue
@@ -382,15 +388,19 @@ def generate(rng, tier, index):
             objs.append(next_obj)
             next_obj += 1
         elif k == "addpar":
-            ops.append(["addpar", o, rng.choice(names), enc(gen_value(rng, numstr)), rng.chance(0.4),
-                        rng.chance(0.6), enc(rng.choice([0.1, 1.0, 1e-3]))])
+            nm, cv = rng.choice(names), rng.chance(0.6)
+            ops.append(["addpar", o, nm, enc(gen_value(rng, numstr)), rng.chance(0.4),
+                        cv, enc(rng.choice([0.1, 1.0, 1e-3]))])
+            if cv and nm not in canvary.setdefault(o, []):
+                canvary[o].append(nm)
         elif k == "set":
             ops.append(["set", o, rng.choice(names), enc(gen_value(rng, numstr))])
         elif k == "set_parameters":
             d = {nm: enc(gen_value(rng, numstr)) for nm in rng.sample(names, rng.between(0, min(4, len(names))))}
             ops.append(["set_parameters", o, d])
         elif k == "set_varylist":
-            ops.append(["set_varylist", o, [rng.choice(names) for _ in range(rng.between(0, 4))]])
+            pool = canvary.get(o) if (canvary.get(o) and rng.chance(0.9)) else names
+            ops.append(["set_varylist", o, [rng.choice(pool) for _ in range(rng.between(0, 4))]])
         elif k == "set_variable_values":
             ops.append(["set_variable_values", o, [enc(gen_value(rng, numstr)) for _ in range(6)]])
         elif k in ("update_other", "update_yourself"):
